@@ -37,12 +37,16 @@ ASSUMPTIONS = {
             '(13 = what a 255 byte FeliCa frame can carry); SENSF_RES carries system code 12FCh',
             'Type 4: ISO-DEP is a reliable APDU channel (property C12); MLe >= NLEN field size (the specification '
             'demands MLe >= 15); READ/UPDATE BINARY offsets are plain 16 bit offsets (no ODO), so the usable '
-            'capacity is limited to 65536 - nlen_size'],
+            'capacity is limited to 65536 - nlen_size',
+            'Type 3 emulation: the application serves its memory array through services 0009h/000Bh the way '
+            'examples/tagtool.py does'],
     'C02': ['a power cut takes effect between commands: the k-th state-changing command is executed completely',
             'Type 4: MLc >= NLEN field size (2 or 4); a card that cannot take the NLEN field in one UPDATE BINARY '
             'cannot be updated atomically by any writer'],
     'C03': ['Type 3 NDEF area = attribute block 0 and data blocks 1..Nmaxb; Type 4 NDEF area = the NDEF file up '
-            'to the maximum file size declared in the capability container'],
+            'to the maximum file size declared in the capability container',
+            'generic Type3Tag.format() (re-discovers and re-declares the data area) and the FeliCa Lite variants '
+            'are not covered by this part'],
 }
 RULE = {
     'C01': 'block tags: T3 (Nbr/Nbw 1..15, Nmaxb, physical limits, WriteF/RWFlag/checksum variants), T3 emulation, '
@@ -464,7 +468,7 @@ CORPUS_T4 = [
 ]
 CORPUS_T4_BIG = [
     # file beyond the 16 bit offset range
-    (dict(mapping=3, mle=250, mlc=250, mfs=65600, rf=0, wf=0, fid='e104', v2=True, v1=False, file='00000000' + 'ee' * 65596), 65596),
+    (dict(mapping=3, mle=200, mlc=200, mfs=70000, rf=0, wf=0, fid='e104', v2=True, v1=False, file='00000000' + 'ee' * 69996), 69996),
 ]
 
 
@@ -572,7 +576,8 @@ def replay(ck, pid, mr):
 def run(ck, pid, mr):
     rng = ck.rng
     quick = ck.tier == 'quick'
-    if ck.replay and replay(ck, pid, mr):
+    if ck.replay:
+        replay(ck, pid, mr)      # a replay file of another part is not ours: nothing to do here
         return
     batch = Batch(ck, mr)
     cut = pid == 'C02'
@@ -587,29 +592,36 @@ def run(ck, pid, mr):
     batch.flush()
 
     # Type 3 passive tag and the emulation
-    n3 = (40 if quick else 400) if cut else (70 if quick else 900)
+    n3 = (40 if quick else 1500) if cut else (70 if quick else 900)
     for kind, gen, count in (('t3', t3_gen, n3), ('emu', emu_gen, n3 // 2)):
         for _ in range(count):
             cfg = gen(rng, small=cut or rng.random() < 0.7)
             cap = 16 * cfg['nmaxb']
             ls = t3_lengths(rng, cap)
             if cut:
-                ls = rng.sample(ls, min(len(ls), 3))
+                ls = rng.sample(ls, min(len(ls), 3 if quick else 5))
             elif quick and cap > 1000:
                 ls = rng.sample(ls, 4)
             for n in ls:
                 run_case(ck, pid, batch, kind, cfg, rand_bytes(rng, n))
         batch.flush()
+        if not quick and not cut:
+            # every length 0 .. capacity+1 on 40 small configurations
+            for _ in range(40):
+                cfg = gen(rng, small=True)
+                for n in range(0, 16 * cfg['nmaxb'] + 2):
+                    run_case(ck, pid, batch, kind, cfg, rand_bytes(rng, n))
+            batch.flush()
 
     # Type 4
-    n4 = (50 if quick else 500) if cut else (90 if quick else 1200)
+    n4 = (50 if quick else 2000) if cut else (90 if quick else 1200)
     for j in range(n4):
         cfg = t4_gen(rng, small=cut or rng.random() < 0.6, big=(not quick and not cut and j % 40 == 0))
         ns = t4_nlen(cfg)
         cap = max(0, min(cfg['mfs'], 65536) - ns)
         ls = t4_lengths(rng, cfg, cap)
         if cut:
-            ls = rng.sample(ls, min(len(ls), 3))
+            ls = rng.sample(ls, min(len(ls), 3 if quick else 5))
         elif cap > 1000:
             ls = rng.sample(ls, 3 if quick else 5)
         for n in ls:
@@ -620,3 +632,10 @@ def run(ck, pid, mr):
         if j % 50 == 49:
             batch.flush()
     batch.flush()
+    if not quick and not cut:
+        for _ in range(40):
+            cfg = t4_gen(rng, small=True)
+            cap = max(0, cfg['mfs'] - t4_nlen(cfg))
+            for n in range(0, cap + 2):
+                run_case(ck, pid, batch, 't4', cfg, rand_bytes(rng, n))
+        batch.flush()
